@@ -1,7 +1,7 @@
 (* Props/C18.v — property theorems for C18 only; each closed by `exact` of a lemma proved
    elsewhere, with Print Assumptions beneath. *)
 From Coq Require Import List NArith Bool Sorted Permutation.
-From KV Require Import Bytes Memtable MemtableProofs.
+From KV Require Import Bytes Memtable MemtableProofs SkipList SkipListProofs.
 Import ListNotations.
 Open Scope N_scope.
 
@@ -76,12 +76,31 @@ Theorem C18_immutable :
 Proof. exact MemtableProofs.C18_immutable. Qed.
 Print Assumptions C18_immutable.
 
+(* guard: no inserted sequence number is 2^64-1 (nextSeqNum = seq+1 would wrap to 0) *)
 Theorem C18_iter_mt : forall ops,
+  Forall (fun e => mseq e < 2^64 - 1) (live_entries ops) ->
   mt_iter_entries (mt_run mt_empty ops) = build (live_entries ops).
 Proof. exact MemtableProofs.C18_iter_mt. Qed.
 Print Assumptions C18_iter_mt.
 
+Theorem C18_iter_imm : forall ops m,
+  mt_iter_entries (mt_run (mt_set_imm m) ops) = mt_entries m.
+Proof. exact MemtableProofs.C18_iter_imm. Qed.
+Print Assumptions C18_iter_imm.
+
+(* the guard is needed *)
+Theorem C18_iter_wrap_refuted :
+  let ops := [OPut [1] [10] (2^63); OPut [2] [20] (2^64 - 1); OPut [3] [30] 5] in
+  mt_iter_entries (mt_run mt_empty ops) = [mkM [3] 5 KVal [30]] /\
+  mt_entries (mt_run mt_empty ops) =
+    [mkM [1] (2^63) KVal [10]; mkM [2] (2^64 - 1) KVal [20]; mkM [3] 5 KVal [30]] /\
+  mt_next (mt_run mt_empty ops) = 6 /\
+  mt_iter_entries (mt_run mt_empty ops) <> build (live_entries ops).
+Proof. exact MemtableProofs.C18_iter_wrap_refuted. Qed.
+Print Assumptions C18_iter_wrap_refuted.
+
 Theorem C18_seek : forall ops t,
+  Forall (fun e => mseq e < 2^64 - 1) (live_entries ops) ->
   let l := mt_iter_entries (mt_run mt_empty ops) in
   exists pre, l = pre ++ seek_ge t l /\
     Forall (fun x => blt (mk x) t = true) pre /\
@@ -93,3 +112,33 @@ Theorem C18_seek_visible : forall t p l, sorted l ->
   seek_ge t (filter p l) = filter p (seek_ge t l).
 Proof. exact MemtableProofs.seek_ge_visible. Qed.
 Print Assumptions C18_seek_visible.
+
+(* ---- Part B: the multi-level (tower) structure --------------------------------------- *)
+
+Theorem C18_towers :
+  (forall less height t, (1 <= height)%nat -> heights_ok t -> mono less t ->
+     search less height t = dropw less t) /\
+  (forall s, sl_wf s ->
+     (forall e h, (1 <= h <= MaxHeight)%nat ->
+        map fst (sl_nodes (sl_insert e h s)) = insert e (map fst (sl_nodes s)) /\
+        sl_wf (sl_insert e h s)) /\
+     (forall k, sl_find k s = find k (map fst (sl_nodes s))) /\
+     (forall k, sl_seek k s = seek_ge k (map fst (sl_nodes s)))) /\
+  (forall ehs, Forall (fun p : mentry * nat => (1 <= snd p <= MaxHeight)%nat) ehs ->
+     map fst (sl_nodes (sl_build ehs)) = build (map fst ehs) /\
+     forall k, sl_find k (sl_build ehs) = latest_version k (map fst ehs)).
+Proof. exact SkipListProofs.C18_towers. Qed.
+Print Assumptions C18_towers.
+
+Theorem C18_towers_levels : forall e h s lv, sl_wf s ->
+  map fst (chain lv (sl_nodes (sl_insert e h s))) =
+  if Nat.ltb lv h then insert e (map fst (chain lv (sl_nodes s)))
+  else map fst (chain lv (sl_nodes s)).
+Proof. exact SkipListProofs.sl_insert_chain. Qed.
+Print Assumptions C18_towers_levels.
+
+Theorem C18_towers_prevs : forall e s top l P, sl_wf s ->
+  In (l, P) (descend_prevs (less_entry e) top (sl_nodes s)) ->
+  chain l P = dropw (less_entry e) (chain l (sl_nodes s)).
+Proof. exact SkipListProofs.sl_insert_prevs. Qed.
+Print Assumptions C18_towers_prevs.
